@@ -1,7 +1,7 @@
 (** The statements of Props/C02.v, proved from Server/ProofsConv.v. *)
 From Coq Require Import List ZArith String Bool Arith.
 From Thunder Require Import Lib.Json DiffMerge.Model DiffMerge.ProofsJS Server.Model Server.Spec Server.Proofs Server.ProofsLife
-     Server.ProofsConv Server.Witness.
+     Server.ProofsConv Server.Witness Server.Queries Server.ProofsQueries.
 Import ListNotations.
 
 (** The round trip for the JavaScript client, as proved for C03 (DiffMerge/ProofsJS.v). *)
@@ -81,3 +81,27 @@ Lemma conv_example_l :
 Proof.
   split; [reflexivity|]. eexists. split; [vm_compute; reflexivity|]. split; vm_compute; reflexivity.
 Qed.
+
+(** * Own query, own variables (Server/Queries.v) *)
+
+Lemma computations_execute_own_query_l : forall cfg h1 s1 qs1 rid t h2 s2 qs2 o tok p3,
+  runQ cfg (init, []) h1 = Some (s1, qs1) -> qlookup rid qs1 = Some t ->
+  runQ cfg (s1, qs1) h2 = Some (s2, qs2) -> stepQ cfg (s2, qs2) (LRun rid o, tok) = Some p3 -> tok = t.
+Proof. exact computations_execute_own_query. Qed.
+
+Lemma subscribe_records_its_query_l : forall cfg h s qs l tok s' qs',
+  runQ cfg (init, []) h = Some (s, qs) -> creates l = true -> stepQ cfg (s, qs) (l, tok) = Some (s', qs') ->
+  st_next s < st_next s' -> qlookup (st_next s) qs' = Some tok.
+Proof.
+  intros cfg h s qs l tok s' qs' H. apply subscribe_records_its_query. exact (runQ_QInv cfg h _ _ QInv_init H).
+Qed.
+
+(** two subscriptions with the same text (token family 7x) and different variables, then runs of both *)
+Definition h_vars : list (label * nat) :=
+  [(LSubscribe 0 QOk, 71); (LSubscribe 1 QOk, 72); (LRun 0 (OOk v1), 71); (LUnsubscribe 0, 0); (LSubscribe 0 QOk, 73);
+   (LRun 1 (OOk v2), 72); (LRun 2 (OOk v1), 73)].
+
+Lemma vars_example_l :
+  exists s qs, runQ (repaired 3) (init, []) h_vars = Some (s, qs) /\ qs = [(2, 73); (1, 72); (0, 71)]
+  /\ stepQ (repaired 3) (s, qs) (LRun 2 (OOk v2), 71) = None.
+Proof. eexists. eexists. split; [vm_compute; reflexivity|]. split; reflexivity. Qed.
